@@ -34,7 +34,7 @@ def run(tier):
     drv = vlib.build_driver()
     outcome = vlib.Outcome(PID, tier)
     mc = vlib.model_check("Connection.tla", "Connection_none.cfg", os.path.join(work, "mc"))
-    for m in ("ref_after_ready", "no_once"):
+    for m in ("ref_after_ready", "no_once", "bad_dialer_lingers"):
         vlib.model_check("Connection.tla", "Connection_%s.cfg" % m, os.path.join(work, "mcm"), expect_violation=True)
     tr = os.path.join(work, "traces")
     files, d, stats, rejs = [], {}, dict(events=0), []
@@ -66,8 +66,8 @@ def run(tier):
              "contexts, single and double releases, releases after failed requests, random delays at conn.wait/dial.failed and inside the dial function; "
              "distinct_nontrivial = distinct event lines other than reset" % T["n"],
         exhaustive=False, rejected=len(rejs), known_findings_hit=outcome.known, model_drift=0,
-        mutant_configs_violated=["Connection_ref_after_ready.cfg", "Connection_no_once.cfg"],
-        checker_cmd="tlc Connection.tla (3 cfgs); tlc ConnectionTrace.tla per shard"),
+        mutant_configs_violated=["Connection_ref_after_ready.cfg", "Connection_no_once.cfg", "Connection_bad_dialer_lingers.cfg"],
+        checker_cmd="tlc Connection.tla (4 cfgs); tlc ConnectionTrace.tla per shard"),
         ["TLC and the TLA+ Json/IOUtils modules", "events carry the set of connections observed in state Shutdown at emission, under one mutex",
          "closure is observed through grpc.ClientConn.GetState(); a double Close is not observable", "schedules are sampled, not enumerated"],
         time.time() - t0, len(outcome.violations))
